@@ -136,7 +136,9 @@ func c08ASTs(quick bool) []refxp.Expr {
 	stepAlpha := []func() *refxp.Step{
 		func() *refxp.Step { return child("a") }, func() *refxp.Step { return child("*") }, func() *refxp.Step { return attr("x") }, func() *refxp.Step { return attr("*") },
 		dot, dotdot, func() *refxp.Step { return axisStep("namespace", nameTest("*")) }, func() *refxp.Step { return child("b") },
-		func() *refxp.Step { return &refxp.Step{Form: refxp.FormChild, Axis: "child", Test: refxp.Test{Kind: refxp.TText}} }, func() *refxp.Step { return ds(child("a")) },
+		func() *refxp.Step {
+			return &refxp.Step{Form: refxp.FormChild, Axis: "child", Test: refxp.Test{Kind: refxp.TText}}
+		}, func() *refxp.Step { return ds(child("a")) },
 	}
 	for _, s1 := range stepAlpha {
 		for _, s2 := range stepAlpha {
